@@ -459,6 +459,38 @@ def fold_readonly(m: Model):
             except EXC + (AttributeError,) as e:
                 outcome2 = f'raises {type(e).__name__}'
             results.append((outcome2 == 'accepted', f'{n}: first assignment of an attribute (construction)', f'is {outcome2}; items are constructed after init(), their constructors must still be able to set attributes'))
+    # 3b. a value that merely *compares equal* to the current one (an enum member's name, 0.0 for 0) must not replace it
+    class EqualStranger:
+        "equal to everything, identical to nothing"
+        def __eq__(self, other):
+            return True
+
+        def __ne__(self, other):
+            return False
+        __hash__ = None
+    for n in names[3:]:
+        ref = ClassRef(LEX, n)
+        if 'LexicalEnum' in [c.qualname for c in m.mro(ref)]:
+            continue
+        C = byname[n]
+        try:
+            setter, owner = resolve(ref)
+        except EXC:
+            continue
+        inst = C()
+        original = ('ORIGINAL',)
+        object.__setattr__(inst, 'operator', original)
+        try:
+            setter(inst, 'operator', EqualStranger())
+            outcome = 'accepted'
+        except AttributeError:
+            outcome = 'refused'
+        except EXC as e:
+            outcome = f'raises {type(e).__name__}: {getattr(e, "text", e)}'
+        ok = inst.operator is original
+        results.append((ok, f'{n}: re-assigning an attribute with an equal but different object',
+                        f'`item.operator = <object equal to the current value>` is {outcome} and the attribute is now {"unchanged" if ok else "the other object"}; '
+                        f'expected the original object to stay (an enum member equals its name: `s.operator = "Negation"` would put a str in its place)'))
     # 4. names with leading underscores are attributes like any other (the read-only flag itself, Enum's _value_ / _name_)
     for n in names[3:]:
         ref = ClassRef(LEX, n)
@@ -520,3 +552,61 @@ def fold_readonly(m: Model):
                 results.append((ok, f'{tn} (class): assigning {attr} after initialisation',
                                 f'`{tn}.{attr} = {val!r}` is {outcome} by {meta}.__setattr__ -- expected AttributeError: with the flag off every item becomes writable'))
     return results, sorted(consulted)
+
+
+def fold_eq_overrides(m: Model):
+    """`__eq__` overrides of the constructible (non-Enum) lexical classes: two *different objects* with the same comparison key
+    -- what copying through `__new__` / unpickling (`__getnewargs__`) produces -- are equal, items with different keys are not,
+    whatever flags the instances carry (system predicate or not).  The base operator they fall back on is the key comparison
+    decided by fold_compare_ops."""
+    results, consulted = [], []
+    enum_classes = set()
+    for st in m.trees[LEX].body:
+        if isinstance(st, ast.ClassDef):
+            ref = ClassRef(LEX, st.name)
+            try:
+                mro = [c.qualname for c in m.mro(ref)]
+            except Exception:
+                continue
+            if 'LexicalEnum' in mro or 'LangCommonEnum' in mro or any(q.endswith('Enum') for q in mro):
+                enum_classes.add(st.name)
+    n = 0
+    for st in m.trees[LEX].body:
+        if not isinstance(st, ast.ClassDef) or st.name in enum_classes:
+            continue
+        ref = ClassRef(LEX, st.name)
+        try:
+            if 'Lexical' not in [c.qualname for c in m.mro(ref)]:
+                continue
+        except Exception:
+            continue
+        fn = next((x for x in st.body if isinstance(x, ast.FunctionDef) and x.name == '__eq__'), None)
+        if fn is None:
+            continue
+        n += 1
+        consulted.append(m.loc(LEX, fn) + f' {st.name}.__eq__')
+
+        class Item(Obj):
+            pass
+        Cls = Obj(st.name)
+        it = Interp({st.name: Cls, 'NotImplemented': NotImplemented, 'isinstance': lambda o, t: isinstance(o, Item) if t is Cls else isinstance(o, t),
+                     'type': lambda o: Cls if isinstance(o, Item) else type(o)}, where=f'lang/lex.py {st.name}.__eq__')
+        for is_system in (False, True):
+            for ka, kb in (((20, 0, -1, 2), (20, 0, -1, 2)), ((20, 0, 1, 2), (20, 0, 1, 2)), ((20, 0, 1, 2), (20, 0, 2, 2)), ((20, 0, -1, 2), (20, 0, -2, 1))):
+                A = Item('a', sort_tuple=ka, is_system=is_system, name='Identity', spec=ka[1:], ident=(st.name, ka[1:]))
+                B = Item('b', sort_tuple=kb, is_system=is_system, name='Identity', spec=kb[1:], ident=(st.name, kb[1:]))
+                sup = Obj('super')
+                sup.__eq__ = lambda other, A=A: (A.sort_tuple == other.sort_tuple) if isinstance(other, Item) else NotImplemented
+                it.g['super'] = lambda *a: sup
+                for x, y, label in ((A, B, 'two objects'), (A, A, 'one object')):
+                    try:
+                        got = it.call(fn, [x, y])
+                    except EXC as e:
+                        got = Raises(f'{type(e).__name__}: {getattr(e, "text", e)}')
+                    want = x.sort_tuple == y.sort_tuple
+                    ok = got is want
+                    results.append((ok, f'{st.name}.__eq__ ({label}, keys {ka} / {kb if x is not y else ka}, is_system={is_system})',
+                                    f'gives {got!r}; structurally identical items are equal and others are not: expected {want} '
+                                    f'(an unpickled or copied item is another object with the same key)'))
+    results.append((n >= 1, 'eq overrides found', f'{n} non-Enum lexical classes override __eq__'))
+    return results, consulted
